@@ -102,7 +102,7 @@ for i in ids:
           "evidence_file": f"/verif/evidence/{i}.json",
           "replay_cmd_template": f"./check {i} --replay {{path}}",
           "engine": "sdkcheck" if i == "C20" else "vcheck",
-          "level_claimed": {"category": "exploration", "text": text, "design_ref": ref},
+          "level_claimed": {"category": "fault_enumeration" if i in ("C04", "C15") else "exploration", "text": text, "design_ref": ref},
           "level_note": note,
           "technique": tech,
         })
